@@ -32,4 +32,5 @@ func init() {
 	register("C10", "exploration", C10)
 	register("C20", "fault_enumeration", C20)
 	register("C19", "exploration", C19)
+	register("C16", "exploration", C16)
 }
